@@ -184,8 +184,10 @@ def check(ctx):
         for gnode in general:
             path = K.find_path(
                 head, [gnode], cut_node=restores,
-                cut_edge=lambda e, t=mtest: (e.src is t and
-                                             e.kind == 'false') or
+                cut_edge=lambda e, t=mtest: (e.src is t and any(
+                    a.key[0] == 'in' and a.key[1] == var and
+                    a.key[2] == mname and not a.key[3]
+                    for a in nz.facts_of_edge(e))) or
                 e.kind == 'done', follow_exc=False)
             # paths through the false edge are fine (not a victim); the
             # path found must therefore avoid the map test entirely or
@@ -270,30 +272,11 @@ def check(ctx):
         for sub in K.walk_no_nested(f.node):
             if isinstance(sub, ast.Call) and \
                     K.callee_text(sub) == 'sorted':
-                keyf = K.kwarg(sub, 'key')
-                tup = None
-                param = None
-                if isinstance(keyf, ast.Name) and keyf.id in f.nested():
-                    kf = f.nested()[keyf.id]
-                    param = kf.params()[0]
-                    rets = [s for s in K.walk_no_nested(kf.node)
-                            if isinstance(s, ast.Return)]
-                    tup = rets[0].value if rets else None
-                elif isinstance(keyf, ast.Lambda):
-                    param = keyf.args.args[0].arg
-                    tup = keyf.body
-                where = f
+                kf, param, tup = K.sort_key_tuple(ctx.index, f, sub)
+                where = kf or f
                 if isinstance(tup, ast.Tuple) and len(tup.elts) > 1:
-                    el = tup.elts[1]
-                    if isinstance(el, ast.IfExp) and \
-                            N.txt(el.test) == '%s.server' % param and \
-                            isinstance(el.body, ast.Constant) and \
-                            isinstance(el.orelse, ast.Constant) and \
-                            el.body.value < el.orelse.value:
-                        ok = True
-                    elif N.txt(el) in ('not %s.server' % param,
-                                       '%s.server is None' % param):
-                        ok = True
+                    ok = K.placed_first(ctx.index, kf or f, tup.elts[1],
+                                        param)
     ctx.ob('C07.5', where or func, None, ok,
            'instances of equal priority: running before pending in the sort '
            'key', construct='sort key running-before-pending')
